@@ -3211,8 +3211,9 @@ class Serializer:
                 node,
                 attributes_data=self._generate_attributes_data(node),
             )
-        elif isinstance(node, TextNode) and node.content:
-            self.writer(node.content.translate(CCE_TABLE_FOR_TEXT))
+        elif isinstance(node, TextNode):
+            if node.content:
+                self.writer(node.content.translate(CCE_TABLE_FOR_TEXT))
         else:
             raise InvalidCodePath
 
